@@ -129,6 +129,19 @@ Print Assumptions C11_fixed_mixed_kinds.
 Theorem C11_mixed_guard_trivial : forall c, g_no_plain_in_spread_group c = true.
 Proof. intros c. reflexivity. Qed.
 Print Assumptions C11_mixed_guard_trivial.
+(* the add_delay decision is taken per PARTITION (spread edges / spread-less edges) since D114: a kernel edge whose own partition stays at
+   or below the step size is neglected (pass-through) even when a plain-delay sibling of the same source variable is far above it.  The
+   scope guard g_above_step is stated per partition accordingly; this circuit (found by an independent review: the model used to decide on
+   the whole group) is OUTSIDE the scope, and the mechanism model gives the pass-through the real code computes
+   (corpus/C11/reg_partition_threshold.json) *)
+Definition w_partition := mkGC dt8 false 0 [S1; T0; T0]
+  [mkG 0 1 (mkq 1 1) (Some (mkq 1 2, None)); mkG 0 2 (mkq 1 1) (Some (mkq 1 16, Some (mkq 1 16)))].
+Example C11_partition_threshold : gwf w_partition = true /\ g_above_step w_partition = false /\ g_plain_ge2 w_partition = true /\
+  map fst (impl_params w_partition) = [0; 0]%nat /\ impl_steps w_partition = [4; 0]%nat /\
+  map fst (spec_params w_partition) = [0; 1]%nat.
+Proof. repeat split; vm_compute; reflexivity. Qed.
+Print Assumptions C11_partition_threshold.
+
 (* the unrestricted statement C11_full_statement fails only on that scope boundary: a delay below the step size is ignored *)
 Definition w_short := mkGC dt8 false 0 [S1; T0] [mkG 0 1 (mkq 1 1) (Some (mkq 1 16, Some (mkq 1 16)))].
 Theorem C11_full_refuted : ~ C11_full_statement.
